@@ -53,6 +53,15 @@ def projectUpO (pin : List Rat) : Option Fixed → List Rat
   | none => pin
   | some fx => projectUp pin fx
 
+/-- `_project_params_up` WITH the element types: the output array is allocated with the element type `upOutDtype dt` (generated from the
+    allocation statement; `dt` = the element type numpy infers for `pin`: integer for an integer array / a list of ints / an int scalar)
+    and every value, free or fixed, is STORED into it.  `Props/C12.lean` `C12_up_dtype`: this is `projectUp` for every `dt`. -/
+def projectUpT (dt : DType) (pin : List Rat) (fx : Fixed) : List Rat := (projectUp pin fx).map (upOutDtype dt).store
+
+def projectUpTO (dt : DType) (pin : List Rat) : Option Fixed → List Rat
+  | none => pin
+  | some fx => projectUpT dt pin fx
+
 /-- number of free (not fixed) parameters -/
 def nFree (fx : Fixed) : Nat := (fx.filter Option.isNone).length
 
@@ -75,6 +84,15 @@ def objectFunc (lower upper : Option Bounds) (fixed : Option Fixed) (llScale : R
   else if anyViolated upperViolated pu upper then (oobReturnUpper llScale, none)
   else (objReturn ((m pu).getD nanResult) llScale, some pu)
 
+/-- `_object_func` called with a parameter vector of element type `dt` (float from scipy / nlopt, integer from a grid written with
+    integers): the same control flow as `objectFunc`, the fixed values folded in by the typed projection -/
+def objectFuncT (dt : DType) (lower upper : Option Bounds) (fixed : Option Fixed) (llScale : Rat) (m : ModelFn) (params : List Rat) :
+    Rat × Option (List Rat) :=
+  let pu := projectUpTO dt params fixed
+  if anyViolated lowerViolated pu lower then (oobReturnLower llScale, none)
+  else if anyViolated upperViolated pu upper then (oobReturnUpper llScale, none)
+  else (objReturn ((m pu).getD nanResult) llScale, some pu)
+
 /-! ## evaluation of the generated vector expressions -/
 
 structure Problem where
@@ -92,6 +110,25 @@ def evalV (expF logF : Rat → Rat) (pb : Problem) (xopt : List Rat) : VE → Op
   | .exp e => (evalV expF logF pb xopt e).map (·.map expF)
   | .down e => (evalV expF logF pb xopt e).map (projectDownO · pb.fixed)
   | .up e => (evalV expF logF pb xopt e).map (projectUpO · pb.fixed)
+  | _ => none
+
+/-- element type of a vector expression: `dp` = element type of the caller's `p0`, `da` = of the optimiser's answer; `numpy.log` /
+    `numpy.exp` produce floats, `down` keeps the type, `up` allocates -/
+def veDType (dp da : DType) : VE → DType
+  | .p0 => dp
+  | .xopt => da
+  | .down e => veDType dp da e
+  | .up e => upOutDtype (veDType dp da e)
+  | _ => .float
+
+/-- `evalV` with the element types (only `up` looks at them) -/
+def evalVT (dp da : DType) (expF logF : Rat → Rat) (pb : Problem) (xopt : List Rat) : VE → Option (List Rat)
+  | .p0 => some pb.p0
+  | .xopt => some xopt
+  | .log e => (evalVT dp da expF logF pb xopt e).map (·.map logF)
+  | .exp e => (evalVT dp da expF logF pb xopt e).map (·.map expF)
+  | .down e => (evalVT dp da expF logF pb xopt e).map (projectDownO · pb.fixed)
+  | .up e => (evalVT dp da expF logF pb xopt e).map (projectUpTO (veDType dp da e) · pb.fixed)
   | _ => none
 
 /-- one entry of a bound list as the float code sees it: no bound (`None`, or the infinity of the natural direction: `-inf` for a
@@ -163,6 +200,16 @@ def wrapperObjective (w : Wrapper) (expF logF : Rat → Rat) (pb : Problem) (m :
   let r := objectFunc lo up (if w.objFixed then pb.fixed else none) (if w.objLlScale then pb.llScale else 1) m params
   (if w.negated then - r.1 else r.1, r.2)
 
+/-- `wrapperObjective` for queries of element type `dq` (`numpy.exp` of a query is a float array) -/
+def wrapperObjectiveT (dq : DType) (w : Wrapper) (expF logF : Rat → Rat) (pb : Problem) (m : ModelFn) (x : List Rat) :
+    Rat × Option (List Rat) :=
+  let params := if w.objLog then x.map expF else x
+  let lo := w.objLower.bind (evalBObj expF logF pb true)
+  let up := w.objUpper.bind (evalBObj expF logF pb false)
+  let r := objectFuncT (if w.objLog then .float else dq) lo up (if w.objFixed then pb.fixed else none)
+    (if w.objLlScale then pb.llScale else 1) m params
+  (if w.negated then - r.1 else r.1, r.2)
+
 /-! ## an optimiser is any sequential strategy -/
 
 inductive Step where
@@ -206,6 +253,18 @@ def runWrapper (w : Wrapper) (expF logF : Rat → Rat) (pb : Problem) (m : Model
   let run := runOpt (wrapperObjective w expF logF pb m) (opt start olo oup) fuel []
   { start := start, optLower := olo, optUpper := oup, run := run,
     result := run.final.bind fun xf => evalV expF logF pb xf.1 w.result,
+    reported := run.final.bind fun xf => if w.reportsFopt then some xf.2 else none }
+
+/-- `runWrapper` with the element types of the caller's `p0` (`dp`), of the optimiser's queries (`dq`) and of its answer (`da`): what the
+    driver executes on a recorded trace.  `Props/C12.lean` `C12_run_dtype`: it is `runWrapper`, whatever the three types. -/
+def runWrapperT (dp dq da : DType) (w : Wrapper) (expF logF : Rat → Rat) (pb : Problem) (m : ModelFn) (opt : Opt) (fuel : Nat) :
+    WrapperRun :=
+  let start := w.start.bind (evalVT dp da expF logF pb [])
+  let olo := w.optLower.bind (evalB expF logF pb true)
+  let oup := w.optUpper.bind (evalB expF logF pb false)
+  let run := runOpt (wrapperObjectiveT dq w expF logF pb m) (opt start olo oup) fuel []
+  { start := start, optLower := olo, optUpper := oup, run := run,
+    result := run.final.bind fun xf => evalVT dp da expF logF pb xf.1 w.result,
     reported := run.final.bind fun xf => if w.reportsFopt then some xf.2 else none }
 
 /-- the optimiser that replays a recorded trace: its queries in order, then its recorded answer -/
